@@ -3,10 +3,11 @@
 // usage: verif-harness <stream> <tier> <seed> <outdir>
 //
 // Writes into <outdir>:
-//   ops.txt     one protocol line per case (input to the Lean model driver)
-//   impl.out    the implementation's canonical result for the same case, one per line
-//   oracle.jsonl  direct-oracle findings: {"sig": "...", "what": "...", "replay": "..."}
-//   stats.json  coverage statistics (counts, histogram, samples)
+//
+//	ops.txt     one protocol line per case (input to the Lean model driver)
+//	impl.out    the implementation's canonical result for the same case, one per line
+//	oracle.jsonl  direct-oracle findings: {"sig": "...", "what": "...", "replay": "..."}
+//	stats.json  coverage statistics (counts, histogram, samples)
 package main
 
 import (
